@@ -75,10 +75,17 @@ def membership(chk, thorough):
                     u.get_system(op[1], False).remove_groups(op[2])
             except ValueError:
                 res = "error"
+            except (RecursionError, Exception) as e:
+                chk.diverge({"clause": "operation-raises", "op": op[0], "exc": type(e).__name__}, {"registry": GLINES, "ops": [x["op"] for x in hist[:k + 1]]})
+                break
             exp_g = {g: set(v) for g, v in h["obs"]["groups"].items()}
             exp_s = {s: set(v) for s, v in h["obs"]["systems"].items()}
-            got_g = {g: set(u.get_group(g).members) for g in exp_g}
-            got_s = {s: set(u.get_system(s, False).members) for s in exp_s}
+            try:
+                got_g = {g: set(u.get_group(g).members) for g in exp_g}
+                got_s = {s: set(u.get_system(s, False).members) for s in exp_s}
+            except (RecursionError, Exception) as e:
+                chk.diverge({"clause": "members-raise", "op": op[0], "exc": type(e).__name__}, {"registry": GLINES, "ops": [x["op"] for x in hist[:k + 1]]})
+                break
             bad = None
             if res != h["res"]:
                 bad = ("outcome", {"expected": h["res"], "observed": res})
